@@ -1,32 +1,59 @@
-"""C08: plan-selecting annotations never change results; injection = body substitution."""
-from lv import core, model, gen, drive, xform, ref
+"""C08: plan-selecting annotations never change results; injection = body substitution.
+
+Per generated program: the reference rows of every intensional predicate (lv/ref.py, in
+which a call of an injectible predicate IS its body with the arguments substituted,
+capture-avoiding), then per annotation assignment (a) every intensional predicate compiled
+from a FRESH LogicaProgram and run on SQLite, (b) a history: the same predicates compiled
+one after another from ONE LogicaProgram object in a drawn order (what a notebook / a test
+harness / `logica.py f.l run P,Q` does), each run on SQLite.  Every result must equal the
+reference rows, hence each other.
+"""
+import copy
+import traceback
+
+from lv import core, model, gen, drive, canon
 from lv.props import common
 
 ID = 'C08'
 BUDGET = {'quick': 130, 'thorough': 5000}
-RULE = ('programs from the typed generator (2-4 intermediate concrete predicates, '
-        'injectible-only predicates whose parameter/local names clash with caller '
-        'variables, aggregation and negation); per program up to 6 assignments of '
-        '{none, @NoInject, @With, @NoWith, @NoInject+@NoWith, @NoInject+@With, @Ground} to '
-        'every concrete predicate (always all-none, all-@NoInject, all-@Ground, then drawn '
-        'mixes); every intensional predicate under every assignment is run on SQLite and '
-        'compared with the reference evaluator, in which a call to an injectible '
-        'predicate is its body with the arguments substituted. Non-trivial = the SQL '
-        'text differs from the unannotated compile and the predicate has >= 1 row; '
-        'distinct by (annotated text, predicate).')
+RULE = ('programs from the typed generator (3-4 intermediate concrete predicates, '
+        'aggregation, negation, aggregating expressions) calling injectible-only predicates '
+        'and functions, among them ones whose bodies contain combines and negations '
+        '(`F(x) = Sum{y :- E(x, y)}`, `J(x, lo, hi) :- lo = Min{y :- E(x, y)}, hi = Max{y :- '
+        'E(y, x)}, ~E(x, x)`, sibling scopes re-using one local name), called twice in a rule, '
+        'nested (F(F(1)), the output of one call feeding the next, through an injected '
+        'intermediate predicate), with caller variables named like the callee\'s parameters '
+        'and locals; per program 6 assignments of {none, @NoInject, @With, @NoWith, '
+        '@NoInject+@NoWith, @NoInject+@With, @Ground} to every concrete predicate (always '
+        'all-none, all-@NoInject, all-@Ground, then drawn mixes).  Under every assignment '
+        'every intensional predicate is compiled from a fresh program object and run on '
+        'SQLite, and additionally all of them are compiled one after another from ONE '
+        'program object in a drawn order (history) and run; every result is compared with '
+        'the reference evaluator, in which a call to an injectible predicate is its body with '
+        'the arguments substituted.  One evaluation = (annotated text, predicate) fresh, or '
+        '(annotated text, order) for a history.  Non-trivial = the SQL text differs from the '
+        'unannotated compile and the predicate has >= 1 row (fresh), or a history of >= 2 '
+        'predicates with >= 1 non-empty result; distinct by that key.')
 ASSUMPTIONS = ['reference evaluator lv/ref.py is the oracle', 'CPython sqlite3',
                '@Ground uses the in-memory logica_test database SQLite attaches by default',
                'composite values compared after JSON canonicalisation (double encoding '
-               'across table boundaries is a rendering difference)']
-OPTS = dict(p_colnames=0.0, p_neg=0.2, p_agg=0.3, p_distinct=0.35, p_null_fact=0.03,
-            p_or=0.25, p_fcall=0.12, p_sibling_reuse=0.3, p_feed_sibling=0.2,
+               'across table boundaries is a rendering difference)',
+               'a history re-uses one LogicaProgram object; each predicate of it is executed '
+               'on its own fresh SQLite connection']
+OPTS = dict(p_colnames=0.0, p_neg=0.2, p_agg=0.3, p_distinct=0.3, p_null_fact=0.03,
+            p_or=0.2, p_fcall=0.12, p_sibling_reuse=0.4, p_feed_sibling=0.2,
+            p_sibling_reuse_neg=0.5, p_multi_combine=0.1,
             agg_ops=('Sum', 'Min', 'Max', '+'), n_idb=(3, 4), n_inj=(1, 3),
-            nest_depth=2, p_two_rules=0.25)
+            nest_depth=2, p_two_rules=0.2,
+            p_aggx=0.04, p_aggx_nobody=0.3, p_agg_nobody=0.05,
+            p_inj_combine=0.6, p_inj_extra=0.45, p_fcall_nest=0.35, p_name_clash=0.4,
+            p_call_idb=0.3)
 CHOICES = ((), ('@NoInject',), ('@With',), ('@NoWith',), ('@NoInject', '@NoWith'),
            ('@NoInject', '@With'), ('@Ground',))
+N_ASSIGNMENTS = 6
 
 
-def assignments(prog, rng, k=6):
+def assignments(prog, rng, k=N_ASSIGNMENTS):
     preds = list(prog['preds'])
     out = [('none', {}), ('all_noinject', {p: ('@NoInject',) for p in preds}),
            ('all_ground', {p: ('@Ground',) for p in preds})]
@@ -45,24 +72,116 @@ def annotate(prog, asg):
     return p
 
 
-def check_assignment(prog, asg, base_sql=None):
+def targets(prog):
+    return [p for p in prog['preds'] if p.startswith('I')]
+
+
+def references(prog, preds):
+    """{pred: (status, cols, rows)} -- once per program, every assignment shares it."""
+    return {p: common.reference(prog, p)[:3] for p in preds}
+
+
+def check_assignment(prog, asg, refs=None, preds=None):
+    """Fresh program object per predicate.  -> ([(status, bucket, detail, pred, sql, n)],
+    text, rules)."""
     res = []
     p2 = annotate(prog, asg)
     text = model.print_program(p2)
+    preds = targets(prog) if preds is None else preds
+    refs = refs if refs is not None else references(prog, preds)
     try:
         rules = drive.parse_rules(text)
     except Exception:
         rules = None
-    for pred in [p for p in prog['preds'] if p.startswith('I')]:
-        st, cols, exp, info = common.reference(prog, pred)
+    for pred in preds:
+        st, cols, exp = refs[pred]
         if st != 'ok':
-            res.append(('inconclusive', st, '', pred, [], None))
+            res.append(('inconclusive', st, '', pred, None, 0))
             continue
         i2 = {}
         st2, b2, d2 = common.compiled_vs(cols, exp, text, pred, rules, quirk_prog=prog,
                                          info=i2)
-        res.append((st2, b2, d2, pred, [], (i2.get('sql'), len(exp))))
-    return res, text
+        res.append((st2, b2, d2, pred, i2.get('sql'), len(exp)))
+    return res, text, rules
+
+
+def check_history(prog, text, rules, order, refs):
+    """All of `order` compiled one after another from ONE LogicaProgram object; each
+    executed (own connection) right after its compilation.
+    -> [(status, bucket, detail, pred)]"""
+    out = []
+    try:
+        if rules is None:
+            rules = drive.parse_rules(text)
+        with drive.quiet():
+            lp = drive.universe.LogicaProgram(copy.deepcopy(rules), user_flags={})
+    except Exception:
+        return out                      # the fresh compilations report it
+    for i, pred in enumerate(order):
+        st, cols, exp = refs[pred]
+        hdr = '--- history %s, predicate %s (compiled #%d from one program object)\n%s' % (
+            ' '.join(order), pred, i + 1, text)
+        try:
+            with drive.quiet():
+                lp.FormattedPredicateSql(pred)
+            got_hdr, rows = drive.execute(lp)
+        except drive.Interrupted:
+            out.append(('inconclusive', 'sqlite_budget', '', pred))
+            continue
+        except drive.DIAGNOSTICS as e:
+            out.append(('fail', 'history:rejected_valid:%s:%s' % (
+                type(e).__name__, common.msg_class(common.first_line(e))),
+                '%s\n%s' % (common.first_line(e), hdr), pred))
+            continue
+        except Exception as e:
+            out.append(('fail', 'history:internal:' + drive.exc_frame(e),
+                        '%s\n%s' % (traceback.format_exc()[-1500:], hdr), pred))
+            continue
+        if st != 'ok':
+            out.append(('inconclusive', st, '', pred))
+            continue
+        if got_hdr != cols and not (not cols and len(got_hdr) == 1):
+            out.append(('fail', 'history:columns_differ',
+                        'expected columns %r got %r\n%s' % (cols, got_hdr, hdr), pred))
+            continue
+        if not cols:
+            rows = [() for _ in rows]
+        d = canon.rows_match(exp, rows)
+        if d is not None:
+            out.append(('fail', 'history:rows_differ', '%s\nexpected %r\nactual   %r\n%s' % (
+                d, sorted(map(repr, exp))[:12], sorted(map(repr, rows))[:12], hdr), pred))
+        else:
+            out.append(('ok', None, '', pred))
+    return out
+
+
+def inj_features(prog):
+    """Labels: how injectibles with combines are used (called twice / nested)."""
+    labels = set()
+    hot = {n for n, d in prog.get('inj', {}).items()
+           if (d[0] == 'fun' and any(e[0] == 'aggx' for e in common.walk_exprs_of_expr(d[2])))
+           or (d[0] == 'rel' and any(l[0] in ('agg', 'neg') for l in d[2]))}
+    if not hot:
+        return labels
+    labels.add('inj_with_combine')
+    for r in prog['rules']:
+        if not r['body']:
+            continue
+        n = 0
+        for l in common.walk_lits(r['body']):
+            if l[0] == 'call' and l[1] in hot:
+                n += 1
+        for e in common.rule_exprs(r):
+            if e[0] == 'fcall' and e[1] in hot:
+                n += 1
+                if any(x[0] == 'fcall' and x[1] in hot
+                       for f, a in e[2] for x in common.walk_exprs_of_expr(a)):
+                    labels.add('inj_with_combine_nested_call')
+        if n:
+            labels.add('inj_with_combine_called')
+        if n >= 2:
+            labels.add('inj_with_combine_called_twice_in_rule')
+    return labels
 
 
 def shard(ctx, col):
@@ -70,47 +189,76 @@ def shard(ctx, col):
 
     def one(rng):
         prog = gen.gen_program(rng, **OPTS)
+        for k, v in prog.get('excluded', {}).items():
+            col.excluded[k] += v
         for l in prog['labels']:
             col.label('prog:' + l)
+        for l in inj_features(prog):
+            col.label('prog:' + l)
+        preds = targets(prog)
+        refs = references(prog, preds)
         base = {}
         for name, asg in assignments(prog, rng):
-            res, text = check_assignment(prog, asg)
+            res, text, rules = check_assignment(prog, asg, refs, preds)
             used = sorted(set(a for v in asg.values() for a in v))
-            for st, bucket, detail, pred, labels, extra in res:
+            jasg = {k: list(v) for k, v in asg.items()}
+            for st, bucket, detail, pred, sql, n in res:
                 if st == 'inconclusive':
                     col.inconc(bucket)
                     continue
                 labels = ['asg:' + name] + ['ann:' + a for a in used]
                 if st == 'ok':
-                    sql, n = extra
                     if name == 'none':
                         base[pred] = sql
                     changed = name != 'none' and sql != base.get(pred)
                     if changed:
                         labels.append('plan_changed')
                     col.case((text, pred), changed and n > 0, labels,
-                             sample={'assignment': {k: list(v) for k, v in asg.items() if v},
+                             sample={'assignment': {k: v for k, v in jasg.items() if v},
                                      'predicate': pred, 'program': text})
                 else:
                     col.case((text, pred), False, labels + ['failed'])
-                    col.fail(bucket, {'prog': model.prog_to_json(prog), 'asg': asg,
+                    col.fail(bucket, {'prog': model.prog_to_json(prog), 'asg': jasg,
                                       'pred': pred}, detail)
+            # history: one program object, drawn order
+            order = list(preds)
+            rng.shuffle(order)
+            if rng.random() < 0.3 and order:
+                order.append(order[0])          # a predicate compiled a second time
+            hres = check_history(prog, text, rules, order, refs)
+            nonempty = any(refs[p][0] == 'ok' and refs[p][2] for p in order)
+            failed = False
+            for st, bucket, detail, pred in hres:
+                if st == 'inconclusive':
+                    col.inconc('history:' + bucket)
+                elif st == 'fail':
+                    failed = True
+                    col.fail(bucket, {'prog': model.prog_to_json(prog), 'asg': jasg,
+                                      'pred': pred, 'order': order}, detail)
+            col.case((text, tuple(order)), len(order) >= 2 and nonempty and not failed,
+                     ['history', 'history:asg:' + name, 'history:len%d' % len(order)] +
+                     (['history:failed'] if failed else []))
     core.hyp_run(one, common.strategy(), ctx.budget, ctx.hyp_seed)
 
 
 def check_case(case):
+    """case: {'prog', 'asg', 'pred'} (fresh compile of pred) or additionally 'order'
+    (history on one program object; only the verdicts for 'pred' are reported)."""
     drive.enable_library_cache()
     prog = model.prog_from_json(case['prog'])
-    prog['preds'] = [p for p in case['asg']] if case.get('asg') else prog.get('preds', [])
-    asg = {k: tuple(v) for k, v in case['asg'].items()}
     allp = []
     for r in prog['rules']:
         if r['pred'] not in allp:
             allp.append(r['pred'])
-    asg = {k: v for k, v in asg.items() if k in allp}
-    prog['preds'] = [case['pred']]
-    res, text = check_assignment(prog, asg)
-    return [(b, d) for st, b, d, pred, labels, extra in res if st == 'fail']
+    asg = {k: tuple(v) for k, v in (case.get('asg') or {}).items() if k in allp}
+    if case.get('order'):
+        order = [p for p in case['order'] if p in allp]
+        refs = references(prog, sorted(set(order)))
+        text = model.print_program(annotate(prog, asg))
+        hres = check_history(prog, text, None, order, refs)
+        return [(b, d) for st, b, d, pred in hres if st == 'fail' and pred == case['pred']]
+    res, text, rules = check_assignment(prog, asg, preds=[case['pred']])
+    return [(b, d) for st, b, d, pred, sql, n in res if st == 'fail']
 
 
 def minimise(case, bucket):
